@@ -20,7 +20,9 @@ Is(e) == l <= Len(Ev) /\ Ev[l].e = e /\ l' = l + 1 /\ UNCHANGED <<tid, p>>
 OR == Is("R") /\ nread' = nread + 1 /\ stream' = Append(stream, Ev[l].v) /\ late' = (IF eos > 0 THEN late + 1 ELSE late)
       /\ chk' = FALSE /\ UNCHANGED <<out, eos, done>>
 OV == Is("V") /\ chk' = FALSE /\ UNCHANGED <<stream, out, nread, eos, late, done>>
-OT == Is("T") /\ out' = Append(out, [frames |-> Ev[l].fr, start |-> Ev[l].s, end |-> Ev[l].t, at |-> nread + eos - 1, fl |-> eos])
+\* fv (when logged): validity of every frame of the DELIVERED data, judged on the frame objects themselves
+OT == Is("T") /\ out' = Append(out, [frames |-> Ev[l].fr, start |-> Ev[l].s, end |-> Ev[l].t, at |-> nread + eos - 1, fl |-> eos,
+                                     fv |-> IF "fv" \in DOMAIN Ev[l] THEN Ev[l].fv ELSE <<>>])
       /\ chk' = TRUE /\ UNCHANGED <<stream, nread, eos, late, done>>
 OEOS == Is("EOS") /\ eos' = eos + 1 /\ chk' = FALSE /\ UNCHANGED <<stream, out, nread, late, done>>
 OEXC == Is("EXC") /\ TLCSet(700000 + tid, 1) /\ chk' = FALSE /\ UNCHANGED <<stream, out, nread, eos, late, done>>   \* the run raised
@@ -36,9 +38,17 @@ Bad(b, ok) == ok \/ TLCSet(b + tid, 1)
 \* its token arrives; the statements about the whole run (C04, the C08 clauses on end-of-stream, peers) when the run is over.
 Last == Len(out)
 TokOK(F(_)) == Last = 0 \/ F(Last)
+\* C03 on the delivered data itself (no reference to positions, so it does not presuppose C01): a token's content has a valid frame,
+\* begins with one unless the token continues a cut one, ends with one when trailing silence is dropped and it was not cut, and holds
+\* no run of more than MaxRun invalid frames
+C03Data(i) == LET fv == out[i].fv  n == Len(fv) IN
+              n = 0 \/ (/\ \E k \in 1..n : fv[k]
+                        /\ (~IsCont(i) => fv[1])
+                        /\ (p.drop /\ n < p.max => fv[n])
+                        /\ \A a \in 1..n : ~(a - MaxRun >= 1 /\ \A k \in (a - MaxRun)..a : ~fv[k]))
 C08Run == eos <= 1 /\ late = 0 /\ (done => eos = 1 /\ (Online => \A k \in 1..Last : out[k].fl = 1 => k = Last)) /\ PeerOK
 Mon == /\ (chk => /\ Bad(100000, TokOK(C01Tok)) /\ Bad(200000, TokOK(C02Tok))
-                  /\ Bad(300000, (TLCGet(100000 + tid) = 0) => TokOK(C03Tok))                   \* C03 presupposes exact slices (C01)
+                  /\ Bad(300000, TokOK(C03Data) /\ ((TLCGet(100000 + tid) = 0) => TokOK(C03Tok)))   \* the positional form presupposes exact slices (C01)
                   /\ Bad(500000, (Online => TokOK(C08Tok)) /\ C08Run)
                   /\ (done => /\ Bad(400000, C04)
                               /\ Bad(600000, (TLCGet(100000 + tid) = 0) => (C04Cover /\ C04First /\ C04NoInvent))))
